@@ -14,51 +14,19 @@ TRUSTED_BASE = [
 ]
 
 
-def crc_step_exhaustive(tmp, tier, seed, goenv):
-    """C06: compare the whole one-byte CRC transition function (2^16 x 2^8)"""
-    table = os.path.join(tmp, "crcstep.bin")
-    implrun = os.path.join(BUILD, "bin", "implrun")
-    modeld = os.path.join(BUILD, "ocaml", "modeld")
-    p = subprocess.run([implrun, "crc-step-table", table], env=goenv, stdout=subprocess.PIPE,
-                       stderr=subprocess.STDOUT, text=True)
-    if p.returncode != 0:
-        return {"evaluations": 0, "bad": [(0, "crc_step_table", "", "implrun failed", p.stdout[-500:], "-")]}
-    n = os.cpu_count() or 4
-    size = 65536 // n
+PROPS = {}
+CLAIMS = {}
 
-    def work(i):
-        lo, hi = i * size, (65536 if i == n - 1 else (i + 1) * size)
-        q = subprocess.run([modeld, "crc_step_table", table, str(lo), str(hi)], stdout=subprocess.PIPE, text=True)
-        return q.stdout.strip()
-    with concurrent.futures.ThreadPoolExecutor(n) as ex:
-        outs = list(ex.map(work, range(n)))
-    bad = []
-    for o in outs:
-        if " bad=0" not in o:
-            # the step function differs from the model and from the bit-serial reference: P fails
-            bad.append((0, "crc_step_table", o, "impl", "model", "0"))
-    os.unlink(table)
-    return {"evaluations": 65536 * 256, "bad": bad,
-            "note": "crc one-byte transition: all 2^16 states x 2^8 bytes compared with model and bit-serial reference (exhaustive)"}
+def _load():
+    import glob, importlib.util
+    d = os.path.join(os.path.dirname(os.path.abspath(__file__)), "props.d")
+    for f in sorted(glob.glob(os.path.join(d, "C*.py"))):
+        spec = importlib.util.spec_from_file_location("props_" + os.path.basename(f)[:-3], f)
+        m = importlib.util.module_from_spec(spec)
+        spec.loader.exec_module(m)
+        pid = os.path.basename(f)[:-3]
+        PROPS[pid] = m.PROP
+        if getattr(m, "CLAIM", None):
+            CLAIMS[pid] = m.CLAIM
 
-
-PROPS = {
-    "C17": {
-        "coq": ["C17"],
-        "exhaustive": False,
-        "rule": "16-bit codecs: all 2^16 values x 2 byte orders, both directions (exhaustive). 32/64-bit: "
-                "per-byte-position exhaustion over 4 backgrounds, walking ones/zeros, NaN/inf/-0/subnormal patterns "
-                "and seeded random values x 4 (byte order, word order) settings, integer and float entry points, "
-                "plus ragged inputs that must panic. Bools: all vectors up to 12 bits, every length 0..2001 "
-                "(all-true, all-false, one-hot, random), decode with quantities off the byte boundary and past the input.",
-        "assumptions": ["math.Float32bits/Float64bits and their inverses are the identity on bit patterns (exercised with NaN payloads and -0)"],
-    },
-    "C06": {
-        "coq": ["C06"],
-        "extra": [crc_step_exhaustive],
-        "exhaustive": True,
-        "rule": "CRC: the complete one-byte transition function (2^24 pairs) is compared exhaustively; whole-string, "
-                "chunked and acceptance-test entry points on structured and random strings of length 0..300.",
-        "assumptions": [],
-    },
-}
+_load()
